@@ -133,8 +133,13 @@ def run(unit):
             # idempotence
             if a and _cast(DataType, to_model, A, A) != ('ok', a):
                 r.violation('cast is not idempotent', {'op': 'cast', 'a': _w(a), 'b': _w(a)}, f'x.cast(x) != x for {_w(a)}', size=len(a))
-        if to_model(DataType.union([])) != frozenset():
-            r.violation('union([]) wrong', {'op': 'union', 'sets': []}, 'empty union is not the empty set')
+        for empty in ([], (), iter(())):
+            try:
+                got = to_model(DataType.union(empty))
+            except Exception as e:  # noqa: BLE001
+                got = 'raised ' + type(e).__name__
+            if got != frozenset():
+                r.violation('union of no sets is not the empty set', {'op': 'union', 'sets': []}, f'union([]) gave {got}', size=0)
         r.count('states', 128)
     else:  # triples
         _, lo, hi = unit
